@@ -23,17 +23,18 @@ def _encodings():
     from bionumpy.encodings import alphabet_encoding as ae
     return {"ACTG": ae.ACTGEncoding, "ACGT": ae.ACGTEncoding, "ACTGN": ae.ACTGnEncoding, "ACGTN": ae.ACGTnEncoding,
             "DIGIT": ae.DigitEncoding, "ACUG": ae.ACUGEncoding, "AMINO": ae.AminoAcidEncoding, "BAM": ae.BamEncoding,
-            "CIGAR": ae.CigarOpEncoding, "STRAND": ae.StrandEncoding, "USER": _user_alphabet()}
+            "CIGAR": ae.CigarOpEncoding, "STRAND": ae.StrandEncoding, "USER": _user_alphabet(), "BRACKET": _user_alphabet(1)}
 
 
 _USER = []
 
 
-def _user_alphabet():
+def _user_alphabet(which=0):
     if not _USER:
         from bionumpy.encodings.alphabet_encoding import AlphabetEncoding
         _USER.append(AlphabetEncoding("ACDEFGHIKLMNPQRSTVWYBZX*"))
-    return _USER[0]
+        _USER.append(AlphabetEncoding("[{]}()<>"))
+    return _USER[which]
 
 
 def _make(data, form):
